@@ -14,6 +14,14 @@
 //!   = oracle-member-nearest-full, aliases kept for the recorded finding line),
 //!   oracle-fallback, oracle-roundtrip-class, oracle-roundtrip-desc, oracle-roundtrip-member
 //! supers = ((class (super…))…), first matching row is the answer of the `SuperClassProvider`.
+//!
+//! `JarSuperProv::remap` (provs = (prov…), prov = ((class (super…))…): a `Vec<JarSuperProv>`, every provider built by inserting its rows):
+//!   prov-remap M which src dst provs                     -> ok (prov…) | err e       which = a | b: the remapper handed to `remap`
+//!   oracle-prov-remap-edges M which src dst provs        -> every surviving row keeps all its edges, renamed; nothing is added
+//!   map-there-back M kind x y provs owner n d            -> ok cyclic | ok (() ()) | ok ((key') ((key)?)) | err e
+//!       rf = remapper_b(x, y, provs); key' = rf.map_*_fail(owner, n, d); provs' = JarSuperProv::remap(rf, provs);
+//!       rb = remapper_b(y, x, provs'); answer of rb.map_*_fail(rf.map_class(owner), key')
+//!   oracle-roundtrip-inherited M kind x y provs owner n d -> the same pipeline must give (n, d) back inside the domain of `roundtrip_inherited`
 use std::collections::HashMap;
 use anyhow::Result;
 use indexmap::{IndexMap, IndexSet};
@@ -559,7 +567,254 @@ fn gen_seqs(r: &mut Rng, tier: Tier, out: &mut Out) {
 	}
 }
 
+// ------------------------------------------------------------------------------------------------ JarSuperProv::remap: generators
+
+fn provs_sexp_of(provs: &[Vec<(String, Vec<String>)>]) -> Sexp { Sexp::list(provs.iter().map(|p| supers_sexp(p)).collect()) }
+
+fn emit_prov_ops(out: &mut Out, m: &Sexp, src: usize, dst: usize, provs: &Sexp) {
+	for which in ["a", "b"] {
+		let args = [m.clone(), Sexp::tag(which), Sexp::nat(src), Sexp::nat(dst), provs.clone()];
+		out.op("prov-remap", &args);
+		out.op("oracle-prov-remap-edges", &args);
+	}
+}
+fn emit_there_back(out: &mut Out, m: &Sexp, kind: &str, x: usize, y: usize, provs: &Sexp, owner: &str, nm: &str, d: &[u32]) {
+	let args = [m.clone(), Sexp::tag(kind), Sexp::nat(x), Sexp::nat(y), provs.clone(), Sexp::str(owner), Sexp::str(nm), Sexp::cps(d)];
+	out.op("map-there-back", &args);
+	out.op("oracle-roundtrip-inherited", &args);
+}
+
+/// Seed-independent scenarios after the demonstration of seed C06-G: `a -> pkg/Base` declares the field `x:I -> counter` and the
+/// method `y:(La;)La; -> tick`; `c -> pkg/Child`, `d -> pkg/Direct`, `e -> pkg/Mid` are mapped, `lib/*` and `java/*` are not.
+/// Every shape is asked through every class of the graph, for the field, the method and a member nobody declares.
+fn prov_scenarios(out: &mut Out) {
+	let member = |desc: &str, a: &str, b: &str| GMember { desc: desc.to_owned(), names: vec![Some(a.to_owned()), Some(b.to_owned())], doc: None, params: vec![] };
+	let cls = |a: &str, b: &str, fields: Vec<GMember>, methods: Vec<GMember>| GClass { names: vec![Some(a.to_owned()), Some(b.to_owned())], doc: None, fields, methods };
+	let g = GMappings { ns: vec!["obf".into(), "named".into()], doc: None, classes: vec![
+		cls("a", "pkg/Base", vec![member("I", "x", "counter")], vec![member("(La;)La;", "y", "tick")]),
+		cls("c", "pkg/Child", vec![], vec![]),
+		cls("d", "pkg/Direct", vec![], vec![]),
+		cls("e", "pkg/Mid", vec![], vec![member("()V", "z", "zap")]),
+	] };
+	let m = g.to_sexp();
+	type P = Vec<Vec<(&'static str, Vec<&'static str>)>>;
+	let shapes: Vec<(&str, P)> = vec![
+		("demo:child-unmapped-base", vec![vec![("c", vec!["lib/Mid"]), ("lib/Mid", vec!["a", "java/io/Serializable"]), ("d", vec!["a"]), ("a", vec!["java/lang/Object"])]]),
+		("depth2:mapped-middle", vec![vec![("c", vec!["e"]), ("e", vec!["a"])]]),
+		("depth2:unmapped-middle", vec![vec![("c", vec!["lib/Mid"]), ("lib/Mid", vec!["a"])]]),
+		("depth3:unmapped-then-mapped", vec![vec![("c", vec!["lib/Mid"]), ("lib/Mid", vec!["e"]), ("e", vec!["a"])]]),
+		("depth3:mapped-then-unmapped", vec![vec![("c", vec!["e"]), ("e", vec!["lib/Mid"]), ("lib/Mid", vec!["a"])]]),
+		("depth4:three-unmapped", vec![vec![("c", vec!["lib/M1"]), ("lib/M1", vec!["lib/M2"]), ("lib/M2", vec!["lib/M3"]), ("lib/M3", vec!["a"])]]),
+		("depth4:alternating", vec![vec![("d", vec!["lib/M1"]), ("lib/M1", vec!["c"]), ("c", vec!["lib/M2"]), ("lib/M2", vec!["a"])]]),
+		("unmapped-top", vec![vec![("c", vec!["a"]), ("a", vec!["lib/Top"]), ("lib/Top", vec!["java/lang/Object"])]]),
+		("unmapped-bottom", vec![vec![("lib/Bot", vec!["c"]), ("c", vec!["a"])]]),
+		("unmapped-bottom-and-middle", vec![vec![("lib/Bot", vec!["lib/Mid"]), ("lib/Mid", vec!["a"])]]),
+		("diamond:unmapped-first", vec![vec![("c", vec!["lib/M1", "e"]), ("lib/M1", vec!["a"]), ("e", vec!["a"])]]),
+		("diamond:unmapped-last", vec![vec![("c", vec!["e", "lib/M1"]), ("lib/M1", vec!["a"]), ("e", vec!["d"])]]),
+		("diamond:two-unmapped", vec![vec![("c", vec!["lib/M1", "lib/M2"]), ("lib/M1", vec!["java/lang/Object"]), ("lib/M2", vec!["a"])]]),
+		("diamond:unmapped-root", vec![vec![("c", vec!["d", "e"]), ("d", vec!["lib/Root"]), ("e", vec!["lib/Root"]), ("lib/Root", vec!["a"])]]),
+		("two-providers:chain-split", vec![vec![("c", vec!["lib/Mid"])], vec![("lib/Mid", vec!["a"]), ("a", vec!["java/lang/Object"])]]),
+		("two-providers:class-in-both", vec![vec![("c", vec!["lib/Mid"])], vec![("c", vec!["a"]), ("lib/Mid", vec!["e"])], vec![("e", vec!["a"])]]),
+		("only-unmapped-classes", vec![vec![("lib/A", vec!["lib/B"]), ("lib/B", vec!["java/lang/Object"])]]),
+		("unmapped-name-is-a-target", vec![vec![("c", vec!["pkg/Base"]), ("pkg/Base", vec!["a"])]]),
+		("empty", vec![vec![]]),
+		("no-provider", vec![]),
+	];
+	for (tag, shape) in &shapes {
+		let provs: Vec<Vec<(String, Vec<String>)>> = shape.iter().map(|p| p.iter().map(|(k, ss)| ((*k).to_owned(), ss.iter().map(|x| (*x).to_owned()).collect())).collect()).collect();
+		let ps = provs_sexp_of(&provs);
+		out.stats.hit("prov-scenario");
+		out.stats.hit(&format!("prov-scenario:{}", tag.split(':').next().unwrap_or(tag)));
+		emit_prov_ops(out, &m, 0, 1, &ps);
+		let mut nodes: Vec<String> = Vec::new();
+		for p in &provs { for (k, ss) in p { for x in std::iter::once(k).chain(ss.iter()) { if !nodes.contains(x) { nodes.push(x.clone()); } } } }
+		for o in &nodes {
+			emit_there_back(out, &m, "f", 0, 1, &ps, o, "x", &cps("I"));
+			emit_there_back(out, &m, "m", 0, 1, &ps, o, "y", &cps("(La;)La;"));
+			emit_there_back(out, &m, "m", 0, 1, &ps, o, "z", &cps("()V"));
+			emit_there_back(out, &m, "f", 0, 1, &ps, o, "nope", &cps("I"));
+		}
+	}
+	// two keys with one image (`A -> Z`, `B -> Z`): one row at the position of the first with the super types of the last; rows of
+	// different providers do not collapse; an edge between the two becomes a loop (guard)
+	let g2 = GMappings { ns: vec!["obf".into(), "named".into()], doc: None, classes: vec![
+		cls("A", "Z", vec![], vec![]), cls("B", "Z", vec![], vec![]), cls("C", "C1", vec![], vec![]),
+		cls("P", "P1", vec![member("I", "f", "fp")], vec![]), cls("Q", "Q1", vec![member("I", "f", "fq")], vec![]),
+	] };
+	let m2 = g2.to_sexp();
+	let collisions: Vec<(&str, P)> = vec![
+		("collision:first-then-last", vec![vec![("A", vec!["P"]), ("C", vec!["A"]), ("B", vec!["Q"])]]),
+		("collision:other-order", vec![vec![("B", vec!["Q"]), ("C", vec!["B", "A"]), ("A", vec!["P"])]]),
+		("collision:three-rows", vec![vec![("A", vec!["P"]), ("B", vec!["Q"]), ("Z", vec!["C"])]]),
+		("collision:different-providers", vec![vec![("A", vec!["P"])], vec![("B", vec!["Q"]), ("C", vec!["A", "B"])]]),
+		("collision:supers-collapse", vec![vec![("C", vec!["A", "P", "B"])]]),
+		("collision:edge-becomes-loop", vec![vec![("A", vec!["B"]), ("B", vec!["P"])]]),
+	];
+	for (tag, shape) in &collisions {
+		let provs: Vec<Vec<(String, Vec<String>)>> = shape.iter().map(|p| p.iter().map(|(k, ss)| ((*k).to_owned(), ss.iter().map(|x| (*x).to_owned()).collect())).collect()).collect();
+		let ps = provs_sexp_of(&provs);
+		out.stats.hit("prov-scenario");
+		out.stats.hit(&format!("prov-scenario:{}", tag.split(':').next().unwrap_or(tag)));
+		emit_prov_ops(out, &m2, 0, 1, &ps);
+		for o in ["A", "B", "C", "P"] { emit_there_back(out, &m2, "f", 0, 1, &ps, o, "f", &cps("I")); }
+	}
+	// the other direction: the providers are in `named` names, carried over to `obf`
+	let back: Vec<Vec<(String, Vec<String>)>> = vec![vec![("pkg/Child".into(), vec!["lib/Mid".into()]), ("lib/Mid".into(), vec!["pkg/Base".into()])]];
+	let ps = provs_sexp_of(&back);
+	emit_prov_ops(out, &m, 1, 0, &ps);
+	emit_there_back(out, &m, "f", 1, 0, &ps, "pkg/Child", "counter", &cps("I"));
+	emit_there_back(out, &m, "m", 1, 0, &ps, "pkg/Child", "tick", &cps("(Lpkg/Base;)Lpkg/Base;"));
+}
+
+/// Random providers aimed at `JarSuperProv::remap` and the way back: a chain of depth 2..4 from an owner to a class declaring a
+/// member, with classes nobody maps at the top / in the middle / at the bottom, diamonds, extra edges, split over 1..3 providers.
+fn gen_provs(r: &mut Rng, tier: Tier, out: &mut Out) {
+	let rounds = if tier == Tier::Thorough { 4000 } else { 160 };
+	const LIB: &[&str] = &["lib/U0", "lib/U1", "java/lang/Object", "lib/U2", "un/mapped"];
+	for round in 0..rounds {
+		let inherit = round % 4 != 3;
+		let case = gen_case(r, out, inherit);
+		let (g, n) = (&case.g, case.n);
+		let m = g.to_sexp();
+		let (src, dst) = if r.chance(1, 40) { (n + r.below(2), r.below(n)) } else {
+			let src = if r.chance(2, 3) { r.range(1, n - 1) } else { 0 };
+			(src, (src + 1 + r.below(n - 1)) % n)
+		};
+		let (s_i, d_i) = (src.min(n - 1), dst.min(n - 1));
+		let t0s = a_tab(g, 0, s_i);
+		let tsd = a_tab(g, s_i, d_i);
+		let mut src_names: Vec<String> = Vec::new();
+		for c in &g.classes { if let Some(x) = &c.names[s_i] { if !src_names.contains(x) { src_names.push(x.clone()); } } }
+		let mut decls: Vec<Decl> = Vec::new();
+		for (ci, c) in g.classes.iter().enumerate() {
+			for (kind, ms, dsx) in [("f", &c.fields, &case.fdescs[ci]), ("m", &c.methods, &case.mdescs[ci])] {
+				for (mi, mem) in ms.iter().enumerate() {
+					if let (Some(cs), Some(_), Some(nm), Some(_)) = (&c.names[s_i], &c.names[d_i], &mem.names[s_i], &mem.names[d_i]) {
+						decls.push(Decl { cls: cs.clone(), kind, nm: nm.clone(), d: print_desc(&rename(&dsx[mi], &t0s)) });
+					}
+				}
+			}
+		}
+		let mapped = |c: &str| tsd.contains_key(c);
+		let libs: Vec<String> = LIB[..r.range(2, 5)].iter().map(|x| (*x).to_owned()).filter(|x| !src_names.contains(x)).collect();
+		let mut nodes = src_names.clone();
+		nodes.extend(libs.iter().cloned());
+		if nodes.len() < 2 { continue; }
+
+		// ---- the chain owner -> … -> declaring class
+		let target: Option<Decl> = if decls.is_empty() { None } else { Some(r.pick(&decls).clone()) };
+		let top = target.as_ref().map(|t| t.cls.clone()).unwrap_or_else(|| r.pick(&nodes).clone());
+		let depth = r.range(2, 4);
+		let mut chain: Vec<String> = Vec::new();
+		let mut pool: Vec<String> = nodes.iter().filter(|x| **x != top).cloned().collect();
+		r.shuffle(&mut pool);
+		let bottom_unmapped = r.chance(1, 4);
+		for i in 0..depth - 1 {
+			// bottom of the chain: mostly a mapped class; middle: mostly a class nobody maps
+			let want_unmapped = if i == 0 { bottom_unmapped } else { r.chance(2, 3) };
+			let pos = pool.iter().position(|x| mapped(x) != want_unmapped).or(if pool.is_empty() { None } else { Some(0) });
+			if let Some(p) = pos { chain.push(pool.remove(p)); }
+		}
+		chain.push(top.clone());
+		// a total order containing the chain as a subsequence; edges only go from earlier to later classes
+		let mut order: Vec<String> = chain.clone();
+		for x in pool { let at = r.below(order.len() + 1); order.insert(at, x); }
+		let idx = |c: &str| order.iter().position(|x| x == c).unwrap_or(0);
+		let mut rows: Vec<(String, Vec<String>)> = Vec::new();
+		// a second path from the bottom of the chain to its top, through a class that is not on the chain
+		let mut forced: Vec<(String, String)> = Vec::new();
+		if chain.len() >= 3 && r.chance(1, 3) {
+			let between: Vec<&String> = order[idx(&chain[0]) + 1..idx(&top)].iter().filter(|x| !chain.contains(x)).collect();
+			if !between.is_empty() {
+				let mid = (*r.pick(&between)).clone();
+				forced.push((chain[0].clone(), mid.clone()));
+				forced.push((mid, top.clone()));
+			}
+		}
+		let diamond = !forced.is_empty();
+		for (i, c) in order.iter().enumerate() {
+			let mut ss: Vec<String> = Vec::new();
+			if let Some(k) = chain.iter().position(|x| x == c) { if k + 1 < chain.len() { ss.push(chain[k + 1].clone()); } }
+			for (a, b) in &forced { if a == c && !ss.contains(b) { let at = r.below(ss.len() + 1); ss.insert(at, b.clone()); } }
+			let later = order.len() - i - 1;
+			if later > 0 {
+				for _ in 0..*r.pick(&[0usize, 0, 1, 1, 2]) {
+					let x = order[i + 1 + r.below(later)].clone();
+					if !ss.contains(&x) { let at = r.below(ss.len() + 1); ss.insert(at, x); }
+				}
+			}
+			if ss.is_empty() && r.chance(2, 3) { continue; } // the providers do not know this class
+			if r.chance(1, 12) && !ss.is_empty() { let x = ss[0].clone(); ss.push(x); out.stats.hit("prov:duplicate-super-in-row"); }
+			rows.push((c.clone(), ss));
+		}
+		r.shuffle(&mut rows);
+		// split over 1..3 providers; sometimes a class is known to two of them, sometimes a key is inserted twice into one
+		let np = *r.pick(&[1usize, 1, 2, 2, 3]);
+		let mut provs: Vec<Vec<(String, Vec<String>)>> = vec![Vec::new(); np];
+		for row in rows { let k = r.below(np); provs[k].push(row); }
+		if np >= 2 && r.chance(1, 6) {
+			if let Some(row) = provs[0].first().cloned() {
+				let i = idx(&row.0);
+				if i + 1 < order.len() { provs[np - 1].push((row.0, vec![order[i + 1 + r.below(order.len() - i - 1)].clone()])); out.stats.hit("prov:class-in-two-providers"); }
+			}
+		}
+		if r.chance(1, 10) {
+			if let Some(row) = provs[0].first().cloned() {
+				let i = idx(&row.0);
+				if i + 1 < order.len() { provs[0].push((row.0, vec![order[i + 1 + r.below(order.len() - i - 1)].clone()])); out.stats.hit("prov:key-inserted-twice"); }
+			}
+		}
+		let ps = provs_sexp_of(&provs);
+
+		// ---- distribution
+		out.stats.hit("prov:case");
+		out.stats.hit(&format!("prov:providers:{np}"));
+		out.stats.hit(&format!("prov:chain-depth:{}", chain.len()));
+		if diamond { out.stats.hit("prov:diamond-second-path"); }
+		if !mapped(&chain[0]) { out.stats.hit("prov:unmapped-at-bottom"); }
+		if chain.len() >= 3 && chain[1..chain.len() - 1].iter().any(|x| !mapped(x)) { out.stats.hit("prov:unmapped-in-middle"); }
+		if chain.len() >= 3 && chain[1..chain.len() - 1].iter().all(|x| !mapped(x)) { out.stats.hit("prov:all-intermediates-unmapped"); }
+		if !mapped(&top) { out.stats.hit("prov:unmapped-at-top"); }
+		let flat: Vec<(String, Vec<String>)> = provs.iter().flatten().cloned().collect();
+		if flat.iter().any(|(k, _)| k == &top && flat.iter().any(|(k2, ss)| k2 == &top && ss.iter().any(|x| !mapped(x)))) { out.stats.hit("prov:declaring-class-has-unmapped-super"); }
+		{
+			let img = |c: &String| tsd.get(c).cloned().unwrap_or_else(|| c.clone());
+			let keys: Vec<String> = flat.iter().map(|e| img(&e.0)).collect();
+			if keys.iter().enumerate().any(|(i, k)| keys[..i].contains(k) && flat[..i].iter().zip(&keys).any(|(e, k2)| k2 == k && e.0 != flat[i].0)) { out.stats.hit("prov:two-keys-one-image"); }
+		}
+
+		emit_prov_ops(out, &m, src, dst, &ps);
+
+		// ---- questions: the aimed member through every class of the chain, then some others
+		if let Some(t) = &target {
+			for o in &chain {
+				let q = MQ { kind: t.kind, owner: o.clone(), nm: t.nm.clone(), d: t.d.clone() };
+				let (hit, _) = expect_hit(&flat, &decls, &q);
+				out.stats.hit(&match &hit {
+					None => "prov-query:aimed-miss".to_owned(),
+					Some((c, _)) if c == o => "prov-query:aimed-declared-by-owner".to_owned(),
+					Some((_, path)) => format!("prov-query:aimed-inherited:{}", if path.iter().skip(1).any(|p| !mapped(p)) { "through-unmapped-intermediate" } else if !mapped(&path[0]) { "unmapped-owner" } else { "mapped-path" }),
+				});
+				emit_there_back(out, &m, t.kind, src, dst, &ps, o, &t.nm, &t.d);
+			}
+		}
+		for _ in 0..2 {
+			let o = r.pick(&nodes).clone();
+			if !decls.is_empty() && r.chance(3, 4) {
+				let x = r.pick(&decls).clone();
+				out.stats.hit("prov-query:random-declaration");
+				emit_there_back(out, &m, x.kind, src, dst, &ps, &o, &x.nm, &x.d);
+			} else {
+				out.stats.hit("prov-query:nobody-declares");
+				emit_there_back(out, &m, "f", src, dst, &ps, &o, "zz", &cps("I"));
+			}
+		}
+	}
+}
+
 fn gen(r: &mut Rng, tier: Tier, out: &mut Out) {
+	// the seed-independent scenarios first (their failures are the most readable ones)
+	prov_scenarios(out);
 	let rounds = if tier == Tier::Thorough { 12000 } else { 320 };
 	for round in 0..rounds {
 		let inherit = round % 3 == 2;
@@ -785,6 +1040,9 @@ fn gen(r: &mut Rng, tier: Tier, out: &mut Out) {
 
 	// --- sequences of questions to one remapper instance (history independence)
 	gen_seqs(r, tier, out);
+
+	// --- providers carried into the other namespace (`JarSuperProv::remap`) and the way back over them
+	gen_provs(r, tier, out);
 }
 
 // ------------------------------------------------------------------------------------------------ executor
@@ -875,6 +1133,77 @@ fn class_pairs(rows: &[Row], s: usize, d: usize) -> Vec<(JavaString, JavaString)
 fn inj_on<K: PartialEq>(pairs: &[(K, K)], img: &K, c: &K) -> bool { pairs.iter().all(|p| p.1 != *img || p.0 == *c) }
 fn valid_name(n: &JavaStr) -> bool { !n.is_empty() && !n.contains(';') }
 
+
+// ------------------------------------------------------------------------------------------------ JarSuperProv::remap
+
+type PlainProv = Vec<(JavaString, Vec<JavaString>)>;
+
+fn plain_of(p: &JarSuperProv) -> PlainProv {
+	p.super_classes.iter().map(|(k, v)| (k.as_inner().to_owned(), v.iter().map(|x| x.as_inner().to_owned()).collect())).collect()
+}
+/// every provider built by inserting its rows in order (`IndexMap::insert`, `IndexSet::insert`); the plain view is read back
+/// from the built provider
+fn provs_from(s: &Sexp) -> R<(Vec<JarSuperProv>, Vec<PlainProv>)> {
+	let mut provs = Vec::new();
+	for p in s.as_list()? {
+		let mut super_classes: IndexMap<ObjClassName, IndexSet<ObjClassName>> = IndexMap::new();
+		for e in p.as_list()? {
+			let [k, ss] = e.as_list()? else { return Err("prov row".into()) };
+			let mut set = IndexSet::new();
+			for x in ss.as_list()? { set.insert(cn(x.as_jstring()?)); }
+			super_classes.insert(cn(k.as_jstring()?), set);
+		}
+		provs.push(JarSuperProv { super_classes });
+	}
+	let plain = provs.iter().map(plain_of).collect();
+	Ok((provs, plain))
+}
+fn provs_sexp(ps: &[JarSuperProv]) -> Sexp {
+	Sexp::list(ps.iter().map(|p| Sexp::list(plain_of(p).iter().map(|(k, ss)| Sexp::list(vec![Sexp::jstr(k), Sexp::list(ss.iter().map(|x| Sexp::jstr(x)).collect())])).collect())).collect())
+}
+fn dedup_first(xs: Vec<JavaString>) -> Vec<JavaString> {
+	let mut out: Vec<JavaString> = Vec::new();
+	for x in xs { if !out.contains(&x) { out.push(x); } }
+	out
+}
+/// Kahn-style: repeatedly drop the rows none of whose targets is the key of a remaining row; acyclic iff nothing remains
+fn acyclic_rows(mut es: Vec<(JavaString, Vec<JavaString>)>) -> bool {
+	loop {
+		let next: Vec<(JavaString, Vec<JavaString>)> = es.iter().filter(|e| e.1.iter().any(|p| es.iter().any(|k| k.0 == *p))).cloned().collect();
+		if next.len() == es.len() { return es.is_empty(); }
+		es = next;
+	}
+}
+/// the graph of all rows and its image under the class renaming `f` are acyclic (the search of the code under test
+/// recurses without a visited set); computed on the request's rows, not on what `remap` returns
+fn guard_acyclic(plain: &[PlainProv], f: &dyn Fn(&JavaStr) -> JavaString) -> bool {
+	let rows: Vec<(JavaString, Vec<JavaString>)> = plain.iter().flatten().cloned().collect();
+	let image = rows.iter().map(|(k, ss)| (f(k), ss.iter().map(|x| f(x)).collect())).collect();
+	acyclic_rows(rows) && acyclic_rows(image)
+}
+/// `prov_remap_spec` / `prov_remap_keeps_edges` on what `remap` returned
+fn prov_edges_oracle(plain: &[PlainProv], out: &[JarSuperProv], f: &dyn Fn(&JavaStr) -> JavaString) -> Ans {
+	if plain.len() != out.len() { return Ans::fail("length"); }
+	for (s, o) in plain.iter().zip(out) {
+		let o = plain_of(o);
+		let keys: Vec<JavaString> = o.iter().map(|e| e.0.clone()).collect();
+		if keys != dedup_first(s.iter().map(|e| f(&e.0)).collect()) { return Ans::fail("keys"); }
+		for (i, (k, ss)) in s.iter().enumerate() {
+			if s[i + 1..].iter().any(|e2| f(&e2.0) == f(k)) { continue; }
+			let want = dedup_first(ss.iter().map(|x| f(x)).collect());
+			if o.iter().find(|e| e.0 == f(k)).map(|e| &e.1) != Some(&want) { return Ans::fail("edges"); }
+		}
+	}
+	Ans::pass()
+}
+fn pre_order(rows: &[(JavaString, Vec<JavaString>)], fuel: usize, o: &JavaStr, out: &mut Vec<JavaString>) -> Option<()> {
+	if fuel == 0 { return None; }
+	out.push(o.to_owned());
+	if let Some((_, ss)) = rows.iter().find(|(k, _)| **k == *o) {
+		for s in ss { pre_order(rows, fuel - 1, s, out)?; }
+	}
+	Some(())
+}
 
 // ------------------------------------------------------------------------------------------------ sequences
 
@@ -1155,6 +1484,67 @@ fn exec(op: &str, args: &[Sexp]) -> Ans {
 				if !inj_on(&pairs, &cls_name.as_inner().to_owned(), &owner) { return Ans::out_of_domain(); }
 				if !inj_on(&mrows, &key2, &(nm.clone(), d.clone())) { return Ans::out_of_domain(); }
 				match q_fail(&rb, kind, cls_name.as_inner(), &key2.0, &key2.1) { Ok(Some(k)) if k == (nm, d) => Ans::pass(), _ => Ans::fail("differs") }
+			}
+			("prov-remap" | "oracle-prov-remap-edges", [which, src, dst, provs]) => {
+				let (provs, plain) = tr!(provs_from(provs));
+				let oracle = op != "prov-remap";
+				let bad = || if oracle { Ans::out_of_domain() } else { Ans::err() };
+				let (Ok(src), Ok(dst)) = (ns!(N, src), ns!(N, dst)) else { return bad() };
+				fn run<A: ARemapper>(re: &A, oracle: bool, provs: &Vec<JarSuperProv>, plain: &[PlainProv]) -> Ans {
+					let out = JarSuperProv::remap(re, provs);
+					if !oracle { return match out { Ok(o) => Ans::Ok(provs_sexp(&o)), Err(_) => Ans::err() }; }
+					let Ok(out) = out else { return Ans::fail("err") };
+					prov_edges_oracle(plain, &out, &|c| re.map_class(ocs(c)).map(|x| x.into_inner()).unwrap_or_default())
+				}
+				if tr!(which.as_atom()) == "a" {
+					match m.remapper_a(src, dst) { Ok(a) => run(&a, oracle, &provs, &plain), Err(_) => bad() }
+				} else {
+					match m.remapper_b(src, dst, &provs) { Ok(b) => run(&b, oracle, &provs, &plain), Err(_) => bad() }
+				}
+			}
+			("map-there-back" | "oracle-roundtrip-inherited", [kind, x, y, provs, owner, nm, d]) => {
+				let kind = tr!(kind.as_atom());
+				if kind != "f" && kind != "m" { return Ans::BadOp("kind".into()); }
+				let (provs, plain) = tr!(provs_from(provs));
+				let (owner, nm, d) = (tr!(owner.as_jstring()), tr!(nm.as_jstring()), tr!(d.as_jstring()));
+				let oracle = op != "map-there-back";
+				let bad = || if oracle { Ans::out_of_domain() } else { Ans::err() };
+				let (Ok(x), Ok(y)) = (ns!(N, x), ns!(N, y)) else { return bad() };
+				// X -> Y over the providers of the request
+				let Ok(rf) = m.remapper_b(x, y, &provs) else { return bad() };
+				if m.remapper_b(y, x, NoSuperClassProvider::new()).is_err() { return bad(); }
+				let phi = |c: &JavaStr| rf.map_class(ocs(c)).map(|x| x.into_inner()).unwrap_or_default();
+				if !guard_acyclic(&plain, &phi) { return if oracle { Ans::out_of_domain() } else { Ans::ok_tag("cyclic") }; }
+				// the pipeline of `src/specialized_methods` / `src/sus.rs`: carry the providers over, build the way back on them
+				let back_of = |key2: &Key| -> Result<Option<Key>> {
+					let provs2 = JarSuperProv::remap(&rf, &provs)?;
+					let rb = m.remapper_b(y, x, &provs2)?;
+					q_fail(&rb, kind, &phi(&owner), &key2.0, &key2.1)
+				};
+				if !oracle {
+					let Ok(fwd) = q_fail(&rf, kind, &owner, &nm, &d) else { return Ans::err() };
+					let Some(key2) = fwd else { return Ans::Ok(Sexp::list(vec![Sexp::list(vec![]), Sexp::list(vec![])])) };
+					let Ok(back) = back_of(&key2) else { return Ans::err() };
+					return Ans::Ok(Sexp::list(vec![Sexp::list(vec![key_sexp(&key2)]), Sexp::list(vec![Sexp::opt(back.as_ref(), key_sexp)])]));
+				}
+				// domain of `roundtrip_inherited`, with what a class declares read off remappers without a provider
+				let (Ok(rf0), Ok(rb0)) = (m.remapper_b(x, y, NoSuperClassProvider::new()), m.remapper_b(y, x, NoSuperClassProvider::new())) else { return Ans::out_of_domain() };
+				let mut nodes: Vec<JavaString> = vec![owner.clone()];
+				for p in &plain { for (k, ss) in p { nodes.push(k.clone()); nodes.extend(ss.iter().cloned()); } }
+				if nodes.iter().any(|a| nodes.iter().any(|b| phi(a) == phi(b) && a != b)) { return Ans::out_of_domain(); }
+				let rows: Vec<(JavaString, Vec<JavaString>)> = plain.iter().flatten().cloned().collect();
+				let mut order = Vec::new();
+				if pre_order(&rows, rows.len() + 1, &owner, &mut order).is_none() { return Ans::out_of_domain(); }
+				let decl_f = |c: &JavaStr| q_fail(&rf0, kind, c, &nm, &d).ok().flatten();
+				let Some(key2) = order.iter().find_map(|c| decl_f(c)) else { return Ans::out_of_domain() };
+				for c in &order {
+					let back_decl = q_fail(&rb0, kind, &phi(c), &key2.0, &key2.1).ok().flatten();
+					match decl_f(c) {
+						None => if back_decl.is_some() { return Ans::out_of_domain(); },
+						Some(v) => if v == key2 && back_decl != Some((nm.clone(), d.clone())) { return Ans::out_of_domain(); },
+					}
+				}
+				match back_of(&key2) { Ok(Some(k)) if k == (nm, d) => Ans::pass(), Ok(_) => Ans::fail("differs"), Err(_) => Ans::fail("err") }
 			}
 			_ => Ans::BadOp("unknown op".into()),
 		}
